@@ -613,6 +613,10 @@ class QGen:
                     self.labels.add("aggregate-over-sequence-of-sequences")
                     self.nops += 3
                     how = self.pick(["count", "where-count", "fold-sum", "fold-count"])
+                    if how == "where-count" and any(os_[0] == v_ or os_[0].startswith(v_ + ".") for v_ in self.nowhere):
+                        # (a Where behind the Select is moved in front of it by func_adl: the recorded handed-on-filtered-sequence finding)
+                        self.excluded["handed-on-filtered-sequence"] = self.excluded.get("handed-on-filtered-sequence", 0) + 1
+                        how = "count"
                     if how == "count":
                         self.labels.add("Count")
                         return (f"{ss}.Count()", "int")
@@ -1062,9 +1066,7 @@ def queries(draw, schema: Schema, feat: Features = None, fuel_range=(1, 3), extr
         if any(isinstance(c[1], TSeq) and isinstance(c[1].elem, TSeq) for c in cols):
             g.labels.add("column-2D-in-per-object-row")
         if form == "bare" and isinstance(cols[0][1], TSeq):
-            # recorded finding: a bare sequence-valued row per object is filled per inner element
-            g.excluded["per-object-bare-sequence-row"] = g.excluded.get("per-object-bare-sequence-row", 0) + 1
-            body, cols, form = f"({body},)", [("col0", cols[0][1])], "tuple"
+            g.labels.add("per-object-bare-sequence-row")
         text = f"Select(SelectMany({src}, lambda {e}: {os_[0]}), lambda {j}: {body})"
         g.labels.add("SelectMany-event")
         g.nops += 1
